@@ -66,7 +66,7 @@ def main():
                     dict(mm, build=flavour))
         ck.note('%s_outcomes' % flavour, outcomes)
         for need in ('entry', 'stop', 'RuntimeError', 'IndexError'):
-            if flavour == 'plain' and not outcomes.get(need):
+            if flavour == 'plain' and not outcomes.get(need) and not ck.violations:
                 common.machinery_failure('no replayed cursor step ended with %s' % need)
         if plan:
             ck.sample(dict(kind='iterator job', build=flavour, job={k: v for k, v in plan[0].items() if k != 'dump'}))
